@@ -13,6 +13,7 @@
                                  (so by nothing where f says nothing), and carries annotation tg
      assertion_of acct b         the balance assertion "b.date balance acct b.qty b.com"
      X_wf_row / X_fact / X_legs / X_text               executable reading of a record of importer X
+   and, for us.interactivebrokers, Spec/ImpSpecIB.v (ibs_kind, ibs_wf, ibs_items, ibs_emitted).
    The theorems quantify over records (what encoding/csv delivered), not over file bytes.
 
    Where an importer does not turn rows into transactions one-to-one, or emits something the
@@ -36,12 +37,14 @@
    * us.interactivebrokers: quantities, proceeds, deposit amounts, currency-trade commissions and
      cash balances are rounded to two places while stock commissions, dividends, interest, taxes
      and position quantities are not; on statements with IB's precision the emitted assertions
-     contradict the emitted transactions (findings/C13-interactivebrokers-rounding.md).  The
-     theorems below are PARTIAL: one per kind of booking row, on the record alone. *)
+     contradict the emitted transactions (findings/C13-interactivebrokers-rounding.md, known
+     finding C13-ib-rounding).  C13_interactivebrokers_faithful states the relation the code
+     implements (Spec/ImpSpecIB.v reads those amounts with ibs_num2, i.e. rounded);
+     C13_interactivebrokers_two_places_exact says when that is the row's amount. *)
 From Coq Require Import ZArith QArith List Bool.
 From Knut Require Import Model.Str Model.Dec Model.Date Model.Account Model.Ledger Model.Journal
      Model.ImpCommonA Model.ImpCommonB Model.Imp.Revolut2 Model.Imp.Revolut Model.Imp.Wise Model.Imp.Swissquote Model.Imp.Interactivebrokers
-     Spec.ImpSpecA Spec.ImpSpecB Proofs.DecValue Proofs.ImpProofsB.
+     Spec.TableSpec Spec.ImpSpecA Spec.ImpSpecB Spec.ImpSpecIB Proofs.DecValue Proofs.PairProofs Proofs.ImpProofsB Proofs.ImpProofsIB Proofs.ImpRunB.
 Import ListNotations.
 
 (* ---------------------------------------------------------------- bookings *)
@@ -51,6 +54,19 @@ Theorem C13b_effect_of_bookings : forall a c ls d desc tg,
   effect a c (mkTxn d desc (concat (map booking_postings ls)) tg) == legs_effect a c ls.
 Proof. intros. rewrite effect_peffect. apply bookings_effect. Qed.
 Print Assumptions C13b_effect_of_bookings.
+
+(* a transaction that books a row (books_b) is a sequence of posting pairs, and the journal built
+   from directives whose transactions each book some row consists of such transactions, day by
+   day: what group B importers hand to journal.Print is balanced (C13_print_balanced for group A) *)
+Theorem C13b_print_balanced : forall acct f ls tg t, books_b acct f ls tg t -> txn_ok t.
+Proof. exact books_b_paired. Qed.
+Print Assumptions C13b_print_balanced.
+
+Theorem C13b_journal_balanced : forall ds,
+  Forall (fun d => match d with DTxn t => exists acct f ls tg, books_b acct f ls tg t | _ => True end) ds ->
+  Forall day_ok (b_days (builder_of ds)).
+Proof. exact booked_days_ok. Qed.
+Print Assumptions C13b_journal_balanced.
 
 (* ---------------------------------------------------------------- revolut2 *)
 (* After the header every record has 10 fields.  Rows without Completed Date are not booked.
@@ -198,29 +214,220 @@ Example C13_swissquote_statement_wf :
                 w_sq_row [70;111;114;101;120;45;66;101;108;97;115;116;117;110;103]%Z [45;57;49;56]%Z] = true.
 Proof. vm_compute. reflexivity. Qed.
 
-(* ---------------------------------------------------------------- us.interactivebrokers (partial) *)
-(* Full statement (NOT proved; the model is compared byte for byte with the binary on generated
-   statements instead): for every activity statement whose records are well-formed, import yields,
-   in record order, one transaction per Trades/Order row (Stocks, Forex), per Deposits & Withdrawals
-   row that is not a total, per Dividends, Interest and Withholding Tax row that is not a total, and
-   one balance assertion dated on the end of the statement period per Open Positions/Summary row
-   and per Forex Balances/Forex row, and nothing for any other record; it needs the Base Currency
-   record before the first Forex trade and the Period record before the first position row.
-   Proved: what ONE record of each transaction kind other than a Forex trade yields, in any state
-   of the importer (the state is unchanged), and that the statement loop concatenates the per-record
-   results.  Not covered by a theorem: Forex trades (need the base currency), the two assertion
-   kinds (need the period), the Period and Base Currency records, and that all other records
-   are ignored. *)
-Theorem C13_interactivebrokers_deposit_row_partial : forall acct dividend interest tax fee trading st cur day desc amt d q,
+(* ---------------------------------------------------------------- from the command line to stdout *)
+(* With every account flag valid (so that it names an account; an empty flag gives a nil account,
+   findings/C13-nil-account-panic.md) the command succeeds on every well-formed statement and its
+   standard output is journal.Print of exactly the directives of the theorems above. *)
+Theorem C13_revolut2_end_to_end : forall aflag fflag acct feeacct rows,
+  account_flag aflag = AAcc acct -> account_flag fflag = AAcc feeacct ->
+  acct <> tbd_account -> acct <> feeacct -> forallb r2_wf_row rows = true ->
+  exists ts bals,
+    run_revolut2 aflag fflag (CRec r2_header :: map CRec rows) =
+      mkRun (print_directives (map DTxn ts ++ map (assertion_of acct) bals)) SOk /\
+    Forall2 (fun r t => books_b acct (r2_fact r) (r2_legs acct feeacct r) None t) (filter r2_is_booking rows) ts /\
+    map t_desc ts = map build_desc (map r2_text (filter r2_is_booking rows)) /\
+    NoDup (map (fun b => (bf_date b, bf_com b)) bals) /\
+    (forall d c v, In (mkBalFact d c v) bals <-> r2_closing (d, c) rows = Some v).
+Proof. exact revolut2_run. Qed.
+Print Assumptions C13_revolut2_end_to_end.
+
+Theorem C13_revolut_end_to_end : forall aflag acct cur header rows,
+  account_flag aflag = AAcc acct ->
+  acct <> tbd_account -> acct <> valuation_account_for acct ->
+  len_is header 9 = true -> field header 2 = s_paid_out ++ cur ++ [41%Z] ->
+  forallb is_alpha cur = true -> cur <> [] ->
+  forallb rv_wf_row rows = true ->
+  exists ts,
+    run_revolut aflag (CRec header :: map CRec rows) = mkRun (print_directives (rv_weave acct cur zero_date rows ts)) SOk /\
+    Forall2 (fun r t => books_b acct (rv_fact cur r) (rv_legs acct cur r) None t) rows ts /\
+    map t_desc ts = map build_desc (map rv_text rows).
+Proof. exact revolut_run. Qed.
+Print Assumptions C13_revolut_end_to_end.
+
+Theorem C13_wise_end_to_end : forall repaired aflag fflag tflag acct feeacct trading rows,
+  account_flag aflag = AAcc acct -> account_flag fflag = AAcc feeacct -> account_flag tflag = AAcc trading ->
+  acct <> tbd_account -> acct <> feeacct -> acct <> trading -> forallb ws_wf_row rows = true ->
+  let entries := flat_map (ws_entries repaired acct feeacct trading) rows in
+  exists ts,
+    run_wise repaired aflag fflag tflag (CRec ws_header :: map CRec rows) = mkRun (print_directives (map DTxn ts)) SOk /\
+    Forall2 (fun e t => books_b acct (en_fact e) (en_legs e) None t) entries ts /\
+    map t_desc ts = map build_desc (map en_text entries).
+Proof. exact wise_run. Qed.
+Print Assumptions C13_wise_end_to_end.
+
+Theorem C13_swissquote_end_to_end :
+  forall aflag dflag iflag wflag fflag tflag acct dividend interest tax fee trading header rows,
+  account_flag aflag = AAcc acct -> account_flag dflag = AAcc dividend -> account_flag iflag = AAcc interest ->
+  account_flag wflag = AAcc tax -> account_flag fflag = AAcc fee -> account_flag tflag = AAcc trading ->
+  acct <> tbd_account -> acct <> dividend -> acct <> interest -> acct <> tax -> acct <> fee -> acct <> trading ->
+  sqs_wf false rows = true ->
+  let entries := sqs_entries acct dividend interest tax fee trading None rows in
+  exists ts,
+    run_swissquote aflag dflag iflag wflag fflag tflag (CRec header :: map CRec rows) = mkRun (print_directives (map DTxn ts)) SOk /\
+    Forall2 (fun e t => books_b acct (en_fact (fst e)) (en_legs (fst e)) (snd e) t) entries ts /\
+    map t_desc ts = map build_desc (map (fun e => en_text (fst e)) entries).
+Proof. exact swissquote_run. Qed.
+Print Assumptions C13_swissquote_end_to_end.
+
+(* ---------------------------------------------------------------- us.interactivebrokers *)
+(* An activity statement is a sequence of records; ibs_kind says what a record is: a context
+   record (Base Currency, Period), a booking row (Trades/Order of Stocks or Forex, Deposits &
+   Withdrawals, Dividends, Interest, Withholding Tax -- the format has no separate fee rows:
+   commissions are columns of the trade rows), a balance row (Open Positions/Summary, Forex
+   Balances/Forex: the statement's position and cash report) or anything else (headers, totals,
+   other sections).  A statement is well-formed (ibs_wf) when every record is (ibs_wf_row: the
+   fields the kind needs are present and parse), every Forex trade comes after a Base Currency
+   record and every balance row after a Period record whose end is not 1 January of year 1.
+   For every well-formed statement the importer emits, in record order, exactly one directive per
+   booking row and per balance row and nothing for any other record (ibs_items lists the items;
+   the two length equations count them):
+   * per booking row ONE transaction dated on the row's date that consists of exactly the row's
+     bookings (trade: quantity and proceeds against the trading account, commission against the
+     fee account -- for a Forex trade in the base currency and only when not zero; deposit: against
+     Expenses:TBD; dividend / interest / tax: against the respective account), changes the import
+     account by exactly the row's signed amounts in every commodity, carries the annotation
+     (traded symbol and currency; security of a dividend/tax row; currency of an interest row)
+     and the text (trade/deposit: composed; else the row's description);
+   * per balance row the assertion of that balance on the import account, dated on the end of the
+     period named by the last Period record before the row.
+   "The row's signed amount" is the amount AS THE CODE ROUNDS IT: quantity, proceeds, Forex
+   commission, deposit amount and cash balance are read with ibs_num2 (two places, half away
+   from zero), stock commission, dividend, interest, tax and position quantity exactly.  This is
+   the relation the code implements, not the property's wording: known finding C13-ib-rounding
+   (findings/C13-interactivebrokers-rounding.md; C13_interactivebrokers_rounding_witness below).
+   Where every rounded amount of the statement has at most two decimals the two readings agree
+   (C13_interactivebrokers_two_places_exact). *)
+Theorem C13_interactivebrokers_faithful : forall acct dividend interest tax fee trading rows,
+  acct <> tbd_account -> acct <> dividend -> acct <> interest -> acct <> tax -> acct <> fee -> acct <> trading ->
+  ibs_wf ibs_ctx0 rows = true ->
+  let items := ibs_items acct dividend interest tax fee trading ibs_ctx0 rows in
+  exists ds,
+    import_interactivebrokers acct dividend interest tax fee trading (map CRec rows) = MOk ds /\
+    Forall2 (ibs_emitted acct) items ds /\
+    length (filter is_txn_dir ds) = length (filter ibs_is_booking rows) /\
+    length (filter (fun d => negb (is_txn_dir d)) ds) = length (filter ibs_is_balance rows).
+Proof. exact interactivebrokers_faithful. Qed.
+Print Assumptions C13_interactivebrokers_faithful.
+
+(* from the command line to standard output: with six valid account flags (-a -i -d -w -f -t) the
+   command succeeds on every well-formed statement and prints journal.Print of those directives *)
+Theorem C13_interactivebrokers_end_to_end :
+  forall aflag iflag dflag wflag fflag tflag acct dividend interest tax fee trading rows,
+  account_flag aflag = AAcc acct -> account_flag iflag = AAcc interest -> account_flag dflag = AAcc dividend ->
+  account_flag wflag = AAcc tax -> account_flag fflag = AAcc fee -> account_flag tflag = AAcc trading ->
+  acct <> tbd_account -> acct <> dividend -> acct <> interest -> acct <> tax -> acct <> fee -> acct <> trading ->
+  ibs_wf ibs_ctx0 rows = true ->
+  let items := ibs_items acct dividend interest tax fee trading ibs_ctx0 rows in
+  exists ds,
+    run_interactivebrokers aflag iflag dflag wflag fflag tflag (map CRec rows) = mkRun (print_directives ds) SOk /\
+    Forall2 (ibs_emitted acct) items ds /\
+    length (filter is_txn_dir ds) = length (filter ibs_is_booking rows) /\
+    length (filter (fun d => negb (is_txn_dir d)) ds) = length (filter ibs_is_balance rows).
+Proof. exact interactivebrokers_run. Qed.
+Print Assumptions C13_interactivebrokers_end_to_end.
+
+(* the executable form of the statement theorem, which ./check C13 evaluates on the standard
+   output of the binary for every generated well-formed statement (drv_c13b.ml): the command
+   prints ibs_statement_output, the journal of the directives that realise the statement's items *)
+Theorem C13_interactivebrokers_stdout :
+  forall aflag iflag dflag wflag fflag tflag acct dividend interest tax fee trading rows,
+  account_flag aflag = AAcc acct -> account_flag iflag = AAcc interest -> account_flag dflag = AAcc dividend ->
+  account_flag wflag = AAcc tax -> account_flag fflag = AAcc fee -> account_flag tflag = AAcc trading ->
+  ibs_wf ibs_ctx0 rows = true ->
+  exists out, ibs_statement_output acct dividend interest tax fee trading rows = Some out /\
+    run_interactivebrokers aflag iflag dflag wflag fflag tflag (map CRec rows) = mkRun out SOk.
+Proof. exact interactivebrokers_stdout. Qed.
+Print Assumptions C13_interactivebrokers_stdout.
+
+(* ... and that journal consists of posting pairs, day by day *)
+Theorem C13_interactivebrokers_print_balanced : forall acct items ds,
+  Forall2 (ibs_emitted acct) items ds -> Forall day_ok (b_days (builder_of ds)).
+Proof. exact interactivebrokers_days_ok. Qed.
+Print Assumptions C13_interactivebrokers_print_balanced.
+
+(* what ibs_num2 is: the exact amount rounded half away from zero to two places (Spec/TableSpec.v,
+   is_round_haz); an amount with at most two decimals (exponent >= -2) is read exactly *)
+Theorem C13_interactivebrokers_rounding : forall s q,
+  ibs_num2 s = Some q -> exists d, ibs_num s = Some d /\ is_round_haz d 2 q.
+Proof. exact ibs_num2_rounds. Qed.
+Print Assumptions C13_interactivebrokers_rounding.
+
+Theorem C13_interactivebrokers_two_places_exact : forall s d,
+  ibs_num s = Some d -> (-2 <= ex d)%Z -> exists q, ibs_num2 s = Some q /\ dvalue q == dvalue d.
+Proof. exact ibs_num2_exact. Qed.
+Print Assumptions C13_interactivebrokers_two_places_exact.
+
+(* a statement with every kind of record: well-formed; six transactions and two assertions *)
+Definition w_ib_statement : list (list str) :=
+  [
+   (* Statement,Data,Period,"January 1, 2024 - January 31, 2024" *)
+   [[83;116;97;116;101;109;101;110;116]; [68;97;116;97]; [80;101;114;105;111;100]; [74;97;110;117;97;114;121;32;49;44;32;50;48;50;52;32;45;32;74;97;110;117;97;114;121;32;51;49;44;32;50;48;50;52]];
+   (* Account Information,Data,Base Currency,CHF *)
+   [[65;99;99;111;117;110;116;32;73;110;102;111;114;109;97;116;105;111;110]; [68;97;116;97]; [66;97;115;101;32;67;117;114;114;101;110;99;121]; [67;72;70]];
+   (* Trades,Header,DataDiscriminator,Asset Category *)
+   [[84;114;97;100;101;115]; [72;101;97;100;101;114]; [68;97;116;97;68;105;115;99;114;105;109;105;110;97;116;111;114]; [65;115;115;101;116;32;67;97;116;101;103;111;114;121]];
+   (* Trades,Data,Order,Stocks,USD,BRK,"2024-01-07, 11:48:02",0.1615,68.3430,68.34,-11.04,-0.005,0,0,0,0,O *)
+   [[84;114;97;100;101;115]; [68;97;116;97]; [79;114;100;101;114]; [83;116;111;99;107;115]; [85;83;68]; [66;82;75]; [50;48;50;52;45;48;49;45;48;55;44;32;49;49;58;52;56;58;48;50]; [48;46;49;54;49;53]; [54;56;46;51;52;51;48]; [54;56;46;51;52]; [45;49;49;46;48;52]; [45;48;46;48;48;53]; [48]; [48]; [48]; [48]; [79]];
+   (* Trades,Data,Order,Forex,CHF,USD.CHF,"2024-01-08, 10:00:00","1,000",0.9,,-900,-1.8,,,,, *)
+   [[84;114;97;100;101;115]; [68;97;116;97]; [79;114;100;101;114]; [70;111;114;101;120]; [67;72;70]; [85;83;68;46;67;72;70]; [50;48;50;52;45;48;49;45;48;56;44;32;49;48;58;48;48;58;48;48]; [49;44;48;48;48]; [48;46;57]; []; [45;57;48;48]; [45;49;46;56]; []; []; []; []; []];
+   (* Deposits & Withdrawals,Data,CHF,2024-01-02,Electronic Fund Transfer,5000 *)
+   [[68;101;112;111;115;105;116;115;32;38;32;87;105;116;104;100;114;97;119;97;108;115]; [68;97;116;97]; [67;72;70]; [50;48;50;52;45;48;49;45;48;50]; [69;108;101;99;116;114;111;110;105;99;32;70;117;110;100;32;84;114;97;110;115;102;101;114]; [53;48;48;48]];
+   (* Deposits & Withdrawals,Data,Total,,,5000 *)
+   [[68;101;112;111;115;105;116;115;32;38;32;87;105;116;104;100;114;97;119;97;108;115]; [68;97;116;97]; [84;111;116;97;108]; []; []; [53;48;48;48]];
+   (* Dividends,Data,USD,2024-01-15,BRK(US0846707026) Cash Dividend,1.5 *)
+   [[68;105;118;105;100;101;110;100;115]; [68;97;116;97]; [85;83;68]; [50;48;50;52;45;48;49;45;49;53]; [66;82;75;40;85;83;48;56;52;54;55;48;55;48;50;54;41;32;67;97;115;104;32;68;105;118;105;100;101;110;100]; [49;46;53]];
+   (* Withholding Tax,Data,USD,2024-01-15,BRK(US0846707026) Cash Dividend - US Tax,-0.22, *)
+   [[87;105;116;104;104;111;108;100;105;110;103;32;84;97;120]; [68;97;116;97]; [85;83;68]; [50;48;50;52;45;48;49;45;49;53]; [66;82;75;40;85;83;48;56;52;54;55;48;55;48;50;54;41;32;67;97;115;104;32;68;105;118;105;100;101;110;100;32;45;32;85;83;32;84;97;120]; [45;48;46;50;50]; []];
+   (* Interest,Data,USD,2024-01-04,USD Debit Interest for Dec-2023,-0.73 *)
+   [[73;110;116;101;114;101;115;116]; [68;97;116;97]; [85;83;68]; [50;48;50;52;45;48;49;45;48;52]; [85;83;68;32;68;101;98;105;116;32;73;110;116;101;114;101;115;116;32;102;111;114;32;68;101;99;45;50;48;50;51]; [45;48;46;55;51]];
+   (* Open Positions,Data,Summary,Stocks,USD,BRK,0.1615,1 *)
+   [[79;112;101;110;32;80;111;115;105;116;105;111;110;115]; [68;97;116;97]; [83;117;109;109;97;114;121]; [83;116;111;99;107;115]; [85;83;68]; [66;82;75]; [48;46;49;54;49;53]; [49]];
+   (* Forex Balances,Data,Forex,CHF,USD,-11.045,1 *)
+   [[70;111;114;101;120;32;66;97;108;97;110;99;101;115]; [68;97;116;97]; [70;111;114;101;120]; [67;72;70]; [85;83;68]; [45;49;49;46;48;52;53]; [49]];
+   (* Notes,Data *)
+   [[78;111;116;101;115]; [68;97;116;97]]
+  ]%Z.
+
+Example C13_interactivebrokers_statement_wf :
+  ibs_wf ibs_ctx0 w_ib_statement = true /\
+  map ibs_kind w_ib_statement =
+    [IbPeriod; IbBase; IbOther; IbStock; IbForex; IbDeposit; IbOther; IbDividend; IbWithholding; IbInterest;
+     IbPosition; IbCash; IbOther] /\
+  length (filter ibs_is_booking w_ib_statement) = 6%nat /\ length (filter ibs_is_balance w_ib_statement) = 2%nat.
+Proof. vm_compute. repeat split. Qed.
+
+(* the same statement through the model: the stock row books 0.16 BRK where the statement says
+   0.1615, and the cash balance -11.045 is asserted as -11.05 (C13-ib-rounding) *)
+Example C13_interactivebrokers_statement_run :
+  let a := [s_Assets; [73;66]%Z] in let x := [s_Expenses; [88]%Z] in
+  exists ds, import_interactivebrokers a x x x x x (map CRec w_ib_statement) = MOk ds /\
+    length ds = 8%nat /\
+    nth 7 ds (DAssert 0 []) = DAssert (of_civil 2024 1 31) [mkBalance a (mkDec (-1105) (-2)) [85;83;68]%Z].
+Proof. eexists. split; [vm_compute; reflexivity|]. split; reflexivity. Qed.
+
+(* the order of the records matters (the hypothesis ibs_wf threads the context): a Forex trade
+   after the Base Currency record is booked, the same trade before it makes the import fail *)
+Example C13_interactivebrokers_order_matters :
+  let a := [s_Assets; [73;66]%Z] in let x := [s_Expenses; [88]%Z] in
+  let base := nth 1 w_ib_statement [] in let fx := nth 4 w_ib_statement [] in
+  ibs_wf ibs_ctx0 [base; fx] = true /\ ibs_wf ibs_ctx0 [fx; base] = false /\
+  (exists t, import_interactivebrokers a x x x x x [CRec base; CRec fx] = MOk [DTxn t]) /\
+  import_interactivebrokers a x x x x x [CRec fx; CRec base] = MErr e_base.
+Proof. vm_compute. repeat split. eexists. reflexivity. Qed.
+
+(* The row theorems: what ONE record of each transaction kind other than a Forex trade yields, in
+   ANY state of the importer (the state is unchanged), stated on the record alone.  On well-formed
+   statements they are instances of C13_interactivebrokers_faithful. *)
+Theorem C13_interactivebrokers_deposit_row : forall acct dividend interest tax fee trading st cur day desc amt d q,
   acct <> tbd_account ->
   str_eqb cur s_total = false -> is_empty day = false -> valid_name cur = true ->
   parse_iso day = Some d -> ibs_num2 amt = Some q ->
   exists t, ib_line acct dividend interest tax fee trading st [s_deposits; s_data; cur; day; desc; amt] = MOk (st, [DTxn t]) /\
     books_b acct (mkEffect d [(cur, q)]) [mkLeg tbd_account acct cur q] None t.
 Proof. intros. eapply ib_deposit_row; eassumption. Qed.
-Print Assumptions C13_interactivebrokers_deposit_row_partial.
+Print Assumptions C13_interactivebrokers_deposit_row.
 
-Theorem C13_interactivebrokers_dividend_row_partial : forall acct dividend interest tax fee trading st cur day desc amt d q,
+Theorem C13_interactivebrokers_dividend_row : forall acct dividend interest tax fee trading st cur day desc amt d q,
   acct <> dividend ->
   is_prefix s_total cur = false -> valid_name cur = true -> parse_iso day = Some d -> ibs_num amt = Some q ->
   ibs_security desc <> [] ->
@@ -228,18 +435,18 @@ Theorem C13_interactivebrokers_dividend_row_partial : forall acct dividend inter
     books_b acct (mkEffect d [(cur, q)]) [mkLeg dividend acct cur q] (Some [ibs_security desc]) t /\
     t_desc t = build_desc desc.
 Proof. intros. eapply ib_dividend_row; eassumption. Qed.
-Print Assumptions C13_interactivebrokers_dividend_row_partial.
+Print Assumptions C13_interactivebrokers_dividend_row.
 
-Theorem C13_interactivebrokers_interest_row_partial : forall acct dividend interest tax fee trading st cur day desc amt d q,
+Theorem C13_interactivebrokers_interest_row : forall acct dividend interest tax fee trading st cur day desc amt d q,
   acct <> interest ->
   is_prefix s_total cur = false -> valid_name cur = true -> parse_iso day = Some d -> ibs_num amt = Some q ->
   exists t, ib_line acct dividend interest tax fee trading st [s_interest; s_data; cur; day; desc; amt] = MOk (st, [DTxn t]) /\
     books_b acct (mkEffect d [(cur, q)]) [mkLeg interest acct cur q] (Some [cur]) t /\
     t_desc t = build_desc desc.
 Proof. intros. eapply ib_interest_row; eassumption. Qed.
-Print Assumptions C13_interactivebrokers_interest_row_partial.
+Print Assumptions C13_interactivebrokers_interest_row.
 
-Theorem C13_interactivebrokers_withholding_row_partial : forall acct dividend interest tax fee trading st cur day desc amt code d q,
+Theorem C13_interactivebrokers_withholding_row : forall acct dividend interest tax fee trading st cur day desc amt code d q,
   acct <> tax ->
   is_prefix s_total cur = false -> valid_name cur = true -> parse_iso day = Some d -> ibs_num amt = Some q ->
   ibs_security desc <> [] ->
@@ -247,11 +454,11 @@ Theorem C13_interactivebrokers_withholding_row_partial : forall acct dividend in
     books_b acct (mkEffect d [(cur, q)]) [mkLeg tax acct cur q] (Some [ibs_security desc]) t /\
     t_desc t = build_desc desc.
 Proof. intros. eapply ib_withholding_row; eassumption. Qed.
-Print Assumptions C13_interactivebrokers_withholding_row_partial.
+Print Assumptions C13_interactivebrokers_withholding_row.
 
 (* the holding changes by the quantity ROUNDED to two places (ibs_num2), the cash by the ROUNDED
    proceeds plus the signed, unrounded commission *)
-Theorem C13_interactivebrokers_stock_row_partial :
+Theorem C13_interactivebrokers_stock_row :
   forall acct dividend interest tax fee trading st cur sym stamp qs ps x9 prs fs x12 x13 x14 x15 x16 d qty price proceeds feeq,
   acct <> fee -> acct <> trading ->
   valid_name cur = true -> valid_name sym = true ->
@@ -262,7 +469,7 @@ Theorem C13_interactivebrokers_stock_row_partial :
     books_b acct (mkEffect d [(sym, qty); (cur, proceeds); (cur, feeq)])
             [mkLeg trading acct sym qty; mkLeg trading acct cur proceeds; mkLeg fee acct cur feeq] (Some [sym; cur]) t.
 Proof. intros. eapply ib_stock_row; eassumption. Qed.
-Print Assumptions C13_interactivebrokers_stock_row_partial.
+Print Assumptions C13_interactivebrokers_stock_row.
 
 Theorem C13_interactivebrokers_loop : forall acct dividend interest tax fee trading st r rest st' ds,
   ib_line acct dividend interest tax fee trading st r = MOk (st', ds) ->
